@@ -76,19 +76,31 @@ Definition check_case (c : case) : list N :=
       let rulesE := rules_of res E in
       let spec := subst rulesE svg in
       let failing := map (fun h => index_of results h 0) (errors res E) in
-      let per_run (r : run) : list N :=
+      let nonint := noninterf rulesE in
+      (* the model's output for completion order [o].  When noninterf holds and [o] is a permutation of the
+         eligible references, C46_fold_is_simultaneous + C46_noninterf_perm prove bundle svg res o = spec,
+         so the fold is executed for the first run of the case only (and for every run of a replay case,
+         where noninterf is false) and the proved-equal value is used for the other orders *)
+      let model_out (first : bool) (o : list N) : bytes :=
+        if first || replay || negb nonint || negb (perm_idx o Eidx)
+        then bundle svg res (map (href_at results) o) else spec in
+      let per_run (first : bool) (r : run) : list N :=
         match r with
         | (o, k, err) =>
             let oh := map (href_at results) o in
             let out := nth (N.to_nat k) outs [] in
             flag (perm_idx o Eidx) 1
-            ++ flag (beqb (bundle svg res oh) out) 1
+            ++ flag (beqb (model_out first o) out) 1
             ++ flag (err_matches (map (fun h => index_of results h 0) (errors res oh)) err) 1
             ++ flag (err_matches failing err) 10
             ++ (if replay then [] else flag (beqb spec out) 11)
         end in
+      let all_runs := match runs with
+                      | [] => []
+                      | r :: rs => per_run true r ++ flat_map (per_run false) rs
+                      end in
       flag (perm_bytes E started) 1
-      ++ (if replay then [] else flag (noninterf rulesE) 2)
-      ++ flat_map per_run runs
+      ++ (if replay then [] else flag nonint 2)
+      ++ all_runs
       ++ (if replay then [] else flag (Nat.leb (length outs) 1) 12)
   end.
